@@ -70,6 +70,18 @@ Theorem C08_emit_safe :
     end.
 Proof. exact emit_safe. Qed.
 
+(* ... and EVERY accumulation site in retrieve() (the fast path on local variables and the slow resumable
+   path) sits under such a guard with a limit <= MAX_BLOCK_SIZE: the list of guards is regenerated from
+   the source, one entry per `run += RUN(s) << shift++` *)
+Theorem C08_every_run_accumulation_is_guarded :
+  forallb run_guard_ok run_acc_guards = true /\ (2 <= length run_acc_guards)%nat.
+Proof. exact run_acc_guards_ok. Qed.
+
+Theorem C08_guarded_accumulation_no_overflow :
+  forall g lim run shift s, In g run_acc_guards -> g = Some lim -> (s <= 1)%N -> run_inv run shift -> (run <= lim)%N ->
+    (shift < 32)%N /\ (N.shiftl (s + 1) shift < 2 ^ 32)%N /\ (run + N.shiftl (s + 1) shift < 2 ^ 32)%N.
+Proof. exact guarded_site_safe. Qed.
+
 (* make_tree() and the table-driven prefix decoding (start[]/base[]/count[]/perm[]): for every
    length vector the delta reader can deliver (3..258 lengths in 1..20), whatever the previous
    contents of the tables: no out-of-bounds access, no undefined shift, no assertion failure; the
